@@ -127,3 +127,46 @@ pub fn cfmt_cell(req: &Value) -> Value {
         _ => json!({"tool_error": "kind"}),
     }
 }
+
+struct PyStr(String);
+impl rustpython_format::CharLen for PyStr {
+    fn char_len(&self) -> usize {
+        self.0.chars().count()
+    }
+}
+impl std::ops::Deref for PyStr {
+    type Target = str;
+    fn deref(&self) -> &str {
+        &self.0
+    }
+}
+
+/// {spec, kind: int|big|str|bool|float, val, sval, bits} -> {"out": text} | {"err": "..."}
+pub fn fmt_cell(req: &Value) -> Value {
+    use rustpython_format::FormatSpec;
+    let spec = match FormatSpec::parse(req["spec"].as_str().unwrap()) {
+        Ok(s) => s,
+        Err(e) => return json!({"err": format!("parse:{:?}", e)}),
+    };
+    let r = match req["kind"].as_str().unwrap() {
+        "int" => {
+            let v: rustpython_ast::bigint::BigInt = req["val"].as_i64().unwrap().into();
+            spec.format_int(&v)
+        }
+        "big" => {
+            let mut v: rustpython_ast::bigint::BigInt = req["sval"].as_str().unwrap().parse().unwrap();
+            if req["val"].as_i64().unwrap() == 1 {
+                v = -v;
+            }
+            spec.format_int(&v)
+        }
+        "str" => spec.format_string(&PyStr(req["sval"].as_str().unwrap().to_string())),
+        "bool" => spec.format_bool(req["val"].as_i64().unwrap() == 1),
+        "float" => spec.format_float(f64::from_bits(req["bits"].as_str().unwrap().parse::<u64>().unwrap())),
+        _ => return json!({"tool_error": "kind"}),
+    };
+    match r {
+        Ok(s) => json!({"out": s}),
+        Err(e) => json!({"err": format!("{:?}", e)}),
+    }
+}
